@@ -155,9 +155,9 @@ Section Reg.
   Definition count_pos (p : list F) : N :=
     fold_left (fun a pi => if fltb OP (f0 OP) pi then N.succ a else a) p 0.
 
-  (** [None] = out of fuel in the surplus loop (excluded by theorem) *)
-  Definition sample_cells (p nv : list F) (count q_mask : N) : option (list N) :=
-    let cells := raw_cells p nv count in
+  (** the correction of the rounded cells to the exact total; [None] = out of fuel in the surplus loop
+      (excluded by theorem) *)
+  Definition correct_cells (p : list F) (cells : list N) (count q_mask : N) : option (list N) :=
     let total := sumN cells in
     if N.ltb total count then
       let d := count - total in
@@ -168,6 +168,9 @@ Section Reg.
       remove_surplus (N.to_nat ((total - count + 1) * (N.of_nat (length cells) + 1)))
                      cells (total - count) 0 q_mask
     else Some cells.
+
+  Definition sample_cells (p nv : list F) (count q_mask : N) : option (list N) :=
+    correct_cells p (raw_cells p nv count) count q_mask.
 
   Definition reg_sample_all (r : qreg) (count : N) (nv : list F) : option (list N) :=
     sample_cells (reg_probabilities r) nv count (q_mask r).
